@@ -28,8 +28,8 @@ CFG = {
         "u32::MAX chunk": r"^stats b0 => .* max=42949\d+ ",
     },
     "gaps": [
-        "C20_minmax_partial: min_value/max_value = min()/max() of the set is proved from the per-store kernel fact BStoreMinMax (BitmapStore::min/max = first/last element of the store) for the bitset stores of the value; that fact (first/last non-zero word + trailing/leading zeros) is a C07 kernel lemma not proved here; array stores need no assumption",
-        "the theorems are about well-formed values (BitmapWF, local copy of the shared invariant in Lemmas/MiscWF.lean); that every public producer yields a well-formed value is the subject of the C01/C02/C04/C06/C17 producer theorems",
+        "none: C20 (all fields of statistics() + serialized_size() = Spec.stats of the element set) is unconditional for every well-formed value (shared Bitmap.WF); the former kernel hypothesis BStoreMinMax is discharged by BStore.min?_spec / max?_spec (C20_minmax); C20_groups characterises Spec.groups on the element list (keys strictly ascending = the distinct 16-bit prefixes, each with the positive number of elements under it)",
+        "the theorems are about well-formed values (shared Bitmap.WF of Inv.lean; Lemmas/MiscWF.bitmapWF_iff bridges the local copy); that every public producer yields a well-formed value is the subject of the C01/C02/C04/C06/C17 producer theorems",
     ],
     "level_text": "Theorems (Lean 4, kernel-checked) that for every well-formed model bitmap the fields of statistics() and serialized_size() equal the values the property assigns to its element set (prefix groups split at 4096, no run containers, 8 + sum(8 + min(2*card, 8192))); the model is tied to the Rust source by running both on the same generated histories in two build profiles and comparing statistics(), serialized_size() and the serialised bytes after every step. Unbounded quantifier = theorem; tie = sampled.",
     "level_note": "Trusted: Lean kernel; the hand-written model mirrors the code (checked by correspondence on generated histories only); Spec.stats as the meaning of the property; well-formedness of reachable values is the subject of C01/C02/C04 (producer theorems), here a hypothesis. n_bytes_* fields are allocator-dependent and not compared. See evidence coverage.proof_gaps.",
